@@ -95,8 +95,9 @@ def same_cell(got, exp):
 
 
 def check(case):
-    coltypes, rowsel, use_fmt = case
-    columns = [(f'c{i}', t) for i, t in enumerate(coltypes)]
+    coltypes, rowsel, use_fmt = case[:3]
+    # columns of a result may carry the same name (two targets under one alias): each column is decomposed for itself
+    columns = [('amount' if len(case) > 3 and case[3] else f'c{i}', t) for i, t in enumerate(coltypes)]
     rows = [tuple(POOLS[t][k % len(POOLS[t])] for t, k in zip(coltypes, sel)) for sel in rowsel]
     dformat = None
     if use_fmt:
@@ -121,7 +122,12 @@ def check(case):
     if len(orows) != len(rows):
         return ('row count unchanged', {'columns': [t.__name__ for t in coltypes]}, len(orows), len(rows))
     for g, e in zip(orows, erows):
-        if len(g) != len(e) or not all(same_cell(a, b) if isinstance(b, Decimal) or b is None else a == b for a, b in zip(g, e)):
+        def safe_eq(a, b):
+            try:
+                return bool(a == b)
+            except Exception:       # Beancount value types compare by attribute access: an unrelated value in the cell is a mismatch, not a crash
+                return False
+        if len(g) != len(e) or not all(same_cell(a, b) if isinstance(b, Decimal) or b is None else safe_eq(a, b) for a, b in zip(g, e)):
             return ('each cell = units of that currency in the value (summed over lots), quantized with a formatter; identity cells unchanged', {'columns': [t.__name__ for t in coltypes], 'rows': repr(rows)[:300], 'fmt': use_fmt}, list(g), e)
     return None
 
@@ -140,6 +146,11 @@ def cases(tier, seed):
                 out.append(((t,), ((k,),), fmt))
             for a, b in itertools.product(range(n), repeat=2):
                 out.append(((t,), ((a,), (b,)), fmt))
+    for a_t, b_t in ((amount.Amount, amount.Amount), (amount.Amount, position.Position), (inventory.Inventory, amount.Amount), (position.Position, inventory.Inventory)):
+        for fmt in (False, True):
+            # same-named amount-like columns whose currencies differ, with and without a plain column between them
+            out.append(((a_t, b_t), ((1, 2), (4, 5), (2, 6), (1, 1)), fmt, True))
+            out.append(((a_t, int, b_t), ((1, 0, 2), (5, 1, 4), (6, 2, 2)), fmt, True))
     for _ in range(300 if tier == 'quick' else 5000):
         k = rng.randint(1, 4)
         ct = tuple(rng.choice(types_) for _ in range(k))
@@ -178,7 +189,7 @@ def run(tier, seed):
                  'without a display formatter; seeded random tables of 1-4 columns x 0-5 rows; distinct = distinct (column types, rows, formatter)')
     cs = cases(tier, seed)
     for case, bad in zip(cs, pmap(check, cs, chunk=32)):
-        res.case(repr(case), {'columns': [t.__name__ for t in case[0]], 'rows': len(case[1]), 'formatter': case[2]})
+        res.case(repr(case), {'columns': [t.__name__ for t in case[0]], 'rows': len(case[1]), 'formatter': case[2], 'same_names': len(case) > 3})
         if bad:
             res.violation('h17:' + bad[0][:40] + ':' + ','.join(bad[1]['columns']), bad[0], bad[1], bad[2], bad[3])
     run_query_per_ledger(res)
